@@ -62,7 +62,7 @@ impl Property for C06 {
     }
     fn runs(&self, tier: Tier) -> u64 {
         match tier {
-            Tier::Quick => 100_000,
+            Tier::Quick => 150_000,
             Tier::Thorough => 2_400_000,
         }
     }
